@@ -156,12 +156,12 @@ type run struct {
 	m  *model
 	cf settings
 
-	trace      []string // transitions, for the fingerprint and samples
-	cycles     int
-	restartsN  int
-	activated  int
-	aborted    bool // a known finding was reproduced: the model cannot follow any further
-	classes    map[string]int
+	trace     []string // transitions, for the fingerprint and samples
+	cycles    int
+	restartsN int
+	activated int
+	aborted   bool // a known finding was reproduced: the model cannot follow any further
+	classes   map[string]int
 }
 
 func (r *run) class(name string) { r.classes[name]++ }
